@@ -9,3 +9,8 @@ pub trait StateMachineTrait: Send + Sync {
         Ok(())
     }
 }
+
+#[cfg(feature = "plane")]
+mod plane;
+#[cfg(feature = "plane")]
+pub use plane::*;
